@@ -47,7 +47,11 @@ def file_models():
     def m_read_raw(ex, st, a, dst, callee):
         pid = z3.simplify(pid_val(a[1]))
         if not z3.is_bv_value(pid):
-            raise Unsupported("read_page_raw of a symbolic page id")
+            # content of a page whose id is symbolic: one fresh byte repeated (the obligations using this never look inside)
+            b = ex.fresh_bv("page_content", 8)
+            ex._write(st, a[2].root, list(a[2].projs), PyVec([b] * PAGE))
+            st.env["$disk_sym_reads"] = st.env.get("$disk_sym_reads", []) + [pid]
+            return [(Enum("Ok", [Tup([])]), [], None)]
         img = st.env.get("$disk_%d" % pid.as_long())
         if img is None or isinstance(img, Opaque):
             img = PyVec([bv(0, 8)] * PAGE)           # never-written page of the (extended) file reads as zeros
@@ -92,7 +96,33 @@ def file_models():
         alts.append((Enum("None"), none_cons, None))
         return alts
 
-    return [(r"File::metadata$", m_metadata), (r"Metadata::len$", m_len), (r"File::set_len$", m_set_len), (r"File::sync_data$", m_sync),
+    def m_open_options(ex, st, a, dst, callee):
+        return [(Opaque("open-options"), [], None)]
+
+    def m_open(ex, st, a, dst, callee):
+        return [(Enum("Ok", [Opaque("out-file")]), [], None)]
+
+    class SetIt:
+        def __init__(self, refs, pos=0):
+            self.refs, self.pos = refs, pos
+
+    def m_set_iter(ex, st, a, dst, callee):
+        v = deref_val(ex, st, a[0])
+        if not isinstance(v, PyVec):
+            return None
+        return [(SetIt([Ref(a[0].root, list(a[0].projs) + [("elem", i)]) for i in range(len(v.items))]), [], None)]
+
+    def m_set_next(ex, st, a, dst, callee):
+        it = deref_val(ex, st, a[0]) if isinstance(a[0], Ref) else a[0]
+        if not isinstance(it, SetIt):
+            return None
+        if it.pos >= len(it.refs):
+            return [(Enum("None"), [], None)]
+        return [(("ADV", a[0], SetIt(it.refs, it.pos + 1), Enum("Some", [it.refs[it.pos]])), [], None)]
+
+    return [(r"OpenOptions::new$|OpenOptions::(write|create_new|truncate|create|read)$", m_open_options), (r"OpenOptions::open::<", m_open),
+            (r"^<&BTreeSet<PageId> as IntoIterator>::into_iter$", m_set_iter), (r"^<std::collections::btree_set::Iter<'_, PageId> as Iterator>::next$", m_set_next),
+            (r"File::metadata$", m_metadata), (r"Metadata::len$", m_len), (r"File::set_len$", m_set_len), (r"File::sync_data$", m_sync),
             (r"^write_page_raw$|pager::write_page_raw$", m_write_raw), (r"^read_page_raw$|pager::read_page_raw$", m_read_raw),
             (r"Meta::encode_page$", m_encode_meta), (r"<std::ops::Range<u64> as Iterator>::find::<", m_range_find)]
 
@@ -272,7 +302,70 @@ def run_node_table_vs_neighbour(first_page_only):
     return run
 
 
+def run_vacuum_copy(ndata):
+    """Pager::write_vacuum_copy on a symbolic reachable set {0, 1, p_1 < ... < p_n} (2 <= p_i <= 15): the copy's allocator state must
+    satisfy the allocator invariant (every marked page lies below next_page_id), mark exactly the reachable pages and copy them."""
+    def run(mf, tier):
+        STATS.update({"queries": 0, "time": 0.0, "inlined": set()})
+        st = State()
+        bitmap = PyVec([bv(0xFF, 8), bv(0xFF, 8)] + [bv(0, 8)] * (PAGE - 2))
+        st.env["$pager"] = Struct("Pager", {0: Opaque("path"), 1: Opaque("file"), 2: Struct("Meta", {4: bv(16, 64)}), 3: Struct("Bitmap", {0: bitmap})})
+        st.env["$file_len"] = bv(16 * PAGE, 64)
+        ps = [z3.BitVec("reachable%d" % i, 64) for i in range(ndata)]
+        for i, p_ in enumerate(ps):
+            st.pc += [z3.UGE(p_, 2), z3.ULE(p_, 15)]
+            if i:
+                st.pc.append(z3.ULT(ps[i - 1], p_))
+        st.env["$reach"] = PyVec([page_id(0), page_id(1)] + [Struct("PageId", {0: p_}) for p_ in ps])
+        ex, paths = pcall(mf, PG + r"write_vacuum_copy\(", [Ref("$pager"), Opaque("target-path"), Ref("$reach")], st, bound=ndata + 6)
+        failed, n = [], 0
+        for p in ok_paths(paths, "write_vacuum_copy"):
+            if not (isinstance(p.ret, Enum) and p.ret.variant == "Ok"):
+                if ex.feasible(p.pc):
+                    failed.append("write_vacuum_copy fails on a reachable set of allocated pages: %r" % (p.ret,))
+                continue
+            n += 1
+            stats = p.ret.fields[0]
+            new_next = stats.fields[1]
+            img = p.st.env.get("$disk_1")
+            if not isinstance(img, PyVec):
+                failed.append("the vacuum copy does not write an allocation bitmap page")
+                continue
+            b0, b1 = img.items[0], img.items[1]
+            for q in ps:
+                if not ex.entails(p.pc, z3.UGT(new_next, q)):
+                    m = ex.model(p.pc, z3.Not(z3.UGT(new_next, q)))
+                    failed.append("the vacuumed file's next_page_id does not lie above every live page: the allocator will hand a live page out again "
+                                  "(e.g. live pages %s, next_page_id %s)" % ([m.eval(x, model_completion=True) for x in ps], m.eval(new_next, model_completion=True)))
+                    break
+            if not ex.entails(p.pc, z3.UGE(new_next, 2)):
+                failed.append("the vacuumed file's next_page_id is below the first data page")
+            for i in range(2, NPAGES):
+                live = z3.Or([q == i for q in ps]) if ps else z3.BoolVal(False)
+                if not ex.entails(p.pc, (bit(b0, b1, i) == 1) == live):
+                    failed.append("the vacuumed file's bitmap does not mark exactly the live pages")
+                    break
+            written = p.st.env.get("$disk_sym_writes", []) + [(bv(k, 64), None) for k in p.st.env.get("$disk_writes", [])]
+            for q in ps:
+                if not ex.entails(p.pc, z3.Or([w == q for w, _ in written] + [z3.BoolVal(False)])):
+                    failed.append("a live page is not copied into the vacuumed file")
+                    break
+        res = {"paths": n, "queries": STATS["queries"], "solver_time_s": round(STATS["time"], 3),
+               "sample": ["reachable = {0, 1} + %d symbolic strictly increasing data pages in [2, 15]" % ndata],
+               "functions": ["pager::Pager::write_vacuum_copy, Bitmap::{new, set_allocated}, Pager::read_page"]}
+        if failed:
+            res.update({"status": "fail", "failed": sorted({re.sub(r" \(e\.g\. .*$", "", f) for f in failed}), "reason": "; ".join(sorted(set(failed)))[:500],
+                        "witness_text": sorted(set(failed))[:3]})
+        else:
+            res["status"] = "pass"
+        return res
+    return run
+
+
 TARGETS = [
+    {"name": "c28_o3_q_e2_vacuum_copy_allocator_state_2_live_pages", "crate": "nervusdb-storage", "run": run_vacuum_copy(2)},
+    {"name": "c28_o3_q_e2_vacuum_copy_allocator_state_0_live_pages", "crate": "nervusdb-storage", "run": run_vacuum_copy(0)},
+    {"name": "c28_o3_t_e2_vacuum_copy_allocator_state_3_live_pages", "crate": "nervusdb-storage", "run": run_vacuum_copy(3)},
     {"name": "c18_o3_q_e2_allocate_page_step", "crate": "nervusdb-storage", "run": run_allocate},
     {"name": "c18_o3_q_e2_free_page_step", "crate": "nervusdb-storage", "run": run_free_then_allocate},
     {"name": "c18_o2_q_e2_node_record_first_page_keeps_neighbour", "crate": "nervusdb-storage", "run": run_node_table_vs_neighbour(True)},
